@@ -40,6 +40,9 @@ func c04Pool(t *ref.Ty) []*ref.V {
 			out = append(out, ref.VTime(time.Unix(s, 0)))
 		}
 		out = append(out, ref.VTime(time.Unix(1655296245, 500000000)), ref.VTime(time.Unix(1655296245, 1)))
+		// equal instants carried in other locations (host data)
+		out = append(out, ref.VTime(time.Unix(1655296245, 0).UTC()), ref.VTime(time.Unix(1655296245, 0).In(time.FixedZone("X", 3600))),
+			ref.VTime(time.Unix(86400, 0).In(time.FixedZone("", -5*3600))))
 		return out
 	case ref.KList:
 		el := c04Pool(t.El)
@@ -49,6 +52,10 @@ func c04Pool(t *ref.Ty) []*ref.V {
 				l.L = append(l.L, el[((i%len(el))+len(el))%len(el)])
 			}
 			return l
+		}
+		if t.El.K == ref.KTime {
+			// one instant in three locations, alone and in both orders
+			return []*ref.V{pick(), pick(5), pick(11), pick(12), pick(5, 11), pick(11, 5), pick(12, 13), pick(2, 3), pick(3, 2), pick(0, 1, 2)}
 		}
 		return []*ref.V{pick(), pick(2), pick(2, 2), pick(2, 3, 2), pick(3, 2), pick(0, 1), pick(1, 0), pick(4, 5, 6, 4, 6),
 			pick(len(el)-1, len(el)-2, len(el)-3), pick(7, 8, 9, 10, 11, 12), pick(2, 4, 6, 8), pick(8, 6, 4, 2, 0)}
